@@ -178,15 +178,32 @@ func (c *Ctx) c05KillReach() {
 	c.check(has, "P2", fname(kpc)+"/final-kill", c.pos(kpc.Pos()), "deferred Kill() of the process itself", "killProcessAndChildren lost its final unconditional Kill(): a process ignoring SIGTERM survives when the group kill is not applicable")
 	// killGroup sends SIGKILL to -pgid (posix) — value-level; the structural part: it calls syscall.Kill / taskkill
 	sends := false
+	why := "killGroup no longer signals the process group"
 	allInstrs(killGroup, func(in ssa.Instruction) {
 		if cl, ok := in.(*ssa.Call); ok {
 			n := calleeFull(&cl.Call)
-			if n == "syscall.Kill" || n == "os/exec.CommandContext" {
-				sends = true
+			if n == "os/exec.CommandContext" {
+				sends = true // windows: taskkill /f /t
+			}
+			if n == "syscall.Kill" {
+				// the whole group (negative pid) and a signal that cannot be caught or ignored
+				sig, isC := constInt(cl.Call.Args[1])
+				neg := false
+				if u, ok := cl.Call.Args[0].(*ssa.UnOp); ok && u.Op == token.SUB {
+					neg = true
+				}
+				switch {
+				case !isC || sig != 9:
+					why = "the process group is sent a signal other than SIGKILL: members that ignore or handle it survive, and once the group leader has died they are no longer found through their parent pid"
+				case !neg:
+					why = "the signal is not sent to the group (the pid argument is not the negated group id)"
+				default:
+					sends = true
+				}
 			}
 		}
 	})
-	c.check(sends, "P2", fname(killGroup)+"/signals", c.pos(killGroup.Pos()), "group kill signals the group", "killGroup no longer signals the process group")
+	c.check(sends, "P2", fname(killGroup)+"/signals", c.pos(killGroup.Pos()), "SIGKILL to the negated group id (taskkill /f /t on windows)", why)
 }
 
 func (c *Ctx) c05LockFree() {
